@@ -226,6 +226,7 @@ theorem c18_once_value (P : Params) (hnc : P.inner.NoCached) (r : RState) (hr : 
 sort of two replacements with colliding keys -/
 def exP : Params := { id := 0, inner := .orig [97, 59, 98] [102], hv := 7 }
 example : exP.inner.NoCached := trivial
+example : RootHyp2 exP.id exP.inner := ⟨by simp [exP, Src.NoCR], by decide, by decide, fun _ _ => rfl⟩
 example : (run exP (initSys {} [] [[.call (.io (true, .map))], [.call (.io (true, .stream))]]) [0, 1, 1, 1, 0, 0]).sh.log.map
       (fun p => match p.1 with | .io (_, .stream) => 1 | .io (_, .map) => 2 | _ => 0) = [1, 2] := by decide
 def exR : RState := { repls := [⟨1, 2, [88], none, 1⟩, ⟨1, 2, [89], none, 0⟩], sorted := [], isSorted := false }
